@@ -5,7 +5,6 @@ Import ListNotations.
 Open Scope string_scope.
 
 Definition text_state (text : string) : pst := {| pk := false; rest := expandtabs (chars_of text) |}.
-Definition text_fuel (text : string) : nat := String.length text + 60.
 (* the parse in which two-word keywords across filler, DEFAULT_ARG and the #include path abort *)
 Definition strict_parse (g : grammar) (text : string) : outcome := strict g (text_fuel text) (GRef "Module") (text_state text).
 
